@@ -17,6 +17,7 @@ import random
 from urllib.parse import parse_qsl, unquote, urlsplit
 
 from harness.c03 import (
+    retry_on_stall,
     qa_object,
     qa_pairs,
     path_for,
@@ -226,7 +227,7 @@ def keeps_double_slash(r, cfg):
 
 def alias_config_ok(case):
     """every alias rule has a canonical rule: same endpoint, same arguments, same methods and
-    protocol, not an alias (the documented meaning of `alias=True`)"""
+    protocol, not an alias, no default contradicting one of the alias (the documented meaning of `alias=True`)"""
 
     def args(r):
         return sorted({t[2] for t in r["toks"] if t != "/" and t[0] == "V"} | set(r["defaults"]))
@@ -234,6 +235,8 @@ def alias_config_ok(case):
     for r in case["rules"]:
         if r["alias"] and not any(
             (not o["alias"]) and o["endpoint"] == r["endpoint"] and args(o) == args(r) and o["methods"] == r["methods"] and o["ws"] == r["ws"] and o["dom"] == r["dom"] and not o["bo"]
+            # ... and the canonical rule can denote what the alias denotes: no contradicting default
+            and all(o["defaults"][k] == v for k, v in r["defaults"].items() if k in o["defaults"])
             for o in case["rules"]
         ):
             return False
@@ -387,6 +390,7 @@ class RedirectStream(Stream):
                 out.append(sample_value(rng, t[1], True))
         return "".join(out)
 
+    @retry_on_stall
     def real(self, case):
         outs = []
         for pr in case["probes"]:
@@ -443,7 +447,8 @@ class RedirectStream(Stream):
         refs = ref_rules(cfg, case["rules"])
         for path in paths:
             pp = "/" + path.lstrip("/") if path else ""
-            n = sum(1 for rr in refs if any(ok for _, ok, _ in rr.alternatives(pp)))
+            # a rule counts when it admits the path - or, a strict branch rule, when it asks for the slash on it
+            n = sum(1 for rr in refs if any(ok for _, ok, _ in rr.alternatives(pp)) or (rr.strict and (e := rr.exact(pp + "/")) is not None and e[0]))
             if n > 1:
                 return True
         return False
@@ -642,6 +647,7 @@ class RedirectScheduleStream(ScheduleStream):
                 n += 1
                 yield {"cfg": cfg, "rules": rules, "adapter": adapter, "qa": qa, "acts": acts, "grants": g}
 
+    @retry_on_stall
     def real(self, case):
         def mk(m, robjs, a):
             def go():
@@ -682,15 +688,16 @@ class RedirectScheduleStream(ScheduleStream):
 
 CHECK = Check(
     prop="C12",
-    gen=["Routing", "RoutingSamples", "RoutingLock", "RoutingGlue"],
-    modules=["WzVerif.Props.C12", "WzVerif.Props.C03L"],
+    gen=["Routing", "RoutingSamples", "RoutingLock", "RoutingGlue", "PyFns_RoutingUrl"],
+    modules=["WzVerif.Props.C12", "WzVerif.Props.C03L", "WzVerif.Props.C12T"],
     streams=[RedirectStream(), RedirectScheduleStream()],
     assumptions=[
+        "C12T (MapAdapter.get_host / encode_query_args / make_redirect_url / make_alias_redirect_url as regenerated from the source): urlunsplit (urllib) and _urlencode are parameters instantiated with the hand model's functions; query_args is translated once per class (str / list of pairs); the outcome of self.build(...) is a parameter",
         "model scope: the redirects MapAdapter.match raises on its own (slash, merged slashes, defaults, alias); redirect_to rules are application supplied and not modelled; host_matching maps are outside the theorems (BoundOK) and the stream",
         "bound adapter is WSGI-shaped: script_name empty or starting with '/', non-empty server name, scheme http/https/ws/wss; a script_name without leading slash makes build() glue it onto the host (observed, outside the claim: not a valid SCRIPT_NAME)",
         "urllib.parse.quote / quote_plus / urlencode / urlunsplit / unquote are hand-modelled and validated by the stream (every redirect URL is compared character for character); the safe= literals are the ones collected from the source by AST (quote_safe_sets_match_source)",
         "a client following a redirect is modelled as urlsplit + unquote of the path + the raw query string (what a WSGI server hands to bind_to_environ); query strings containing '#' are outside the stream",
-        "alias rules are claimed only with a canonical (non-alias) rule of the same endpoint, arguments, methods and protocol (the documented meaning of alias=True); an alias without one redirects to itself forever - the `assert url != path` in make_alias_redirect_url compares the URL with 'domain|path' and can never fire (observed, application error)",
+        "alias rules are claimed only with a canonical (non-alias) rule of the same endpoint, arguments, methods and protocol (the documented meaning of alias=True); an alias without one redirects to itself forever - the `assert url != path` in make_alias_redirect_url compares the URL with 'domain|path' and does not detect that (observed, application error); the assertion is modelled (aliasOutcome: AssertionError exactly when the URL equals domain_part + '|' + path_part, reachable only with a '/' inside the bound domain part - found by the translator builder, never generated here)",
         "oracle item 'final endpoint / arguments equal the original's' is asserted when the map does not itself leave the visited paths ambiguous (no path of the chain admitted by two rules): with overlapping rules what a canonical URL denotes is decided by rule priority (C03), not by the redirect",
         "Map.update / Map.add protocol (Props/C03L, shared by C03 / C04 / C12): the statement order of both functions is regenerated from map.py by AST (Gen/RoutingLock; an unknown statement becomes `.other` and breaks the discipline obligations); the interleaving semantics is a model: each statement is atomic except the two sorts, which pass through an unsorted state (list.sort empties the list while it runs); rules are abstract ids and sortedness w.r.t. a set of rules is the only property of the structures that is kept; threads / the GIL / Lock are Python's (modelled, validated by stream schedules: the real code is stepped through the same grant lists via Map.lock_class, a Map subclass with a `_remap` property, wrapped _matcher.update / add and a Rule subclass whose build_compare_key stops inside the endpoint sort). update_passes_sorted assumes add() threads do not move while the lock is held (necessary on the unchanged code: add_during_update_loses_flag - Map.add concurrent with request handling is outside the documented use)",
         "query arguments are passed the way the API documents them: None, a str, or a Mapping - dict (also with list / tuple values), MultiDict for repeated keys (whose own order, values grouped per key, is the expectation); 'preserves the query string' is asserted on every redirect of every kind",
